@@ -13,6 +13,33 @@ import random
 from . import core
 
 KINDS = ("single", "multi", "hexsingle", "hexmulti")
+LAYER_NAMES = ("elev", "heat")  # protocol layer L is LAYER_NAMES[L]; any other index names a layer that does not exist
+CMPS = {"ge": lambda k: (lambda d: d >= k), "le": lambda k: (lambda d: d <= k), "eq": lambda k: (lambda d: d == k),
+        "ne": lambda k: (lambda d: d != k)}
+
+
+def layer_name(i):
+    return LAYER_NAMES[i] if i < len(LAYER_NAMES) else f"nope{i}"
+
+
+def parse_sel(w):
+    """`sel RL OE NM mask… NC cond… NE ext…` -> (return_list, only_empty, masks, conds, exts) with masks = ("N", x, y, moore, ic, r) |
+    ("B", bits), conds = (layer, cmp, k), exts = (layer, mode)"""
+    rl, oe = w[1] == "1", w[2] == "1"
+    i = 3
+    out = []
+    for _ in range(3):
+        n = int(w[i])
+        out.append(w[i + 1:i + 1 + n])
+        i += 1 + n
+    assert i == len(w)
+    masks = []
+    for t in out[0]:
+        f = t.split("/")
+        masks.append(("N", int(f[1]), int(f[2]), f[3] == "1", f[4] == "1", int(f[5])) if f[0] == "N" else ("B", f[1]))
+    conds = [(int(f[0]), f[1], int(f[2])) for f in (t.split("/") for t in out[1])]
+    exts = [(int(f[0]), f[1]) for f in (t.split("/") for t in out[2])]
+    return rl, oe, masks, conds, exts
 
 
 class ScriptExhausted(Exception):
@@ -41,6 +68,22 @@ class ScriptedRandom(random.Random):
 
     def getrandbits(self, k):
         raise ScriptExhausted()
+
+
+class ReorderedSet(set):
+    """a set with the same members whose iteration order is rotated by k and reversed for odd k (len, membership, add, discard
+    are the set's own)"""
+
+    def __init__(self, items, k):
+        super().__init__(items)
+        self.k = k
+
+    def __iter__(self):
+        items = list(set.__iter__(self))
+        if items:
+            r = self.k % len(items)
+            items = items[r:] + items[:r]
+        return iter(items[::-1] if self.k % 2 else items)
 
 
 def _mesa():
@@ -132,7 +175,10 @@ class GridImpl:
                "hexsingle": space.HexSingleGrid, "hexmulti": space.HexMultiGrid}[kind]
         pl = None
         if layers:
-            pl = [space.PropertyLayer("elev", w, h, 0.0), space.PropertyLayer("flag", w, h, False, dtype=bool)]
+            # two int layers that `select_cells` reads (modelled: layers 0 and 1) and a bool one nothing refers to
+            pl = [space.PropertyLayer("elev", w, h, 0, dtype=int), space.PropertyLayer("heat", w, h, 0, dtype=int),
+                  space.PropertyLayer("flag", w, h, False, dtype=bool)]
+        self.nlayers = 2 if layers else 0
         self.kind, self.w, self.h, self.torus, self.nag = kind, w, h, bool(torus), nag
         self.multi = kind in ("multi", "hexmulti")
         self.hex = kind.startswith("hex")
@@ -156,11 +202,15 @@ class GridImpl:
 
     def snap(self):
         g = self.grid
-        cells = {ck(c): self.ids(content) for content, c in g.coord_iter()}
+        # the contents are read from the cell store itself: coord_iter / iteration / indexing are views under test
+        cells = {ck((x, y)): self.ids(g._grid[x][y]) for (x, y) in self.cells_order}
         pos = tuple(None if a.pos is None else (int(a.pos[0]), int(a.pos[1])) for a in self.agents)
         mask = tuple(bool(g.empty_mask[x, y]) for (x, y) in self.cells_order)
         empty = tuple(bool(g.is_cell_empty(c)) for c in self.cells_order)
-        return {"pos": pos, "cells": cells, "mask": mask, "empty": empty}
+        s = {"pos": pos, "cells": cells, "mask": mask, "empty": empty}
+        if self.nlayers:
+            s["layers"] = [tuple(int(g.properties[n].data[x, y]) for (x, y) in self.cells_order) for n in LAYER_NAMES[:self.nlayers]]
+        return s
 
     def fmt_dump(self, s):
         ps = " ".join("-" if p is None else f"{p[0]},{p[1]}" for p in s["pos"])
@@ -170,7 +220,7 @@ class GridImpl:
 
     def empty_cells(self):
         """empty cells by inspection of the contents (does NOT read grid.empties)"""
-        return [c for content, c in self.grid.coord_iter() if not content]
+        return [(x, y) for (x, y) in self.cells_order if not self.grid._grid[x][y]]
 
     # one protocol line -------------------------------------------------------------------
     def line(self, w):
@@ -209,7 +259,11 @@ class GridImpl:
             g.swap_pos(A[int(w[1])], A[int(w[2])])
             return "ok", None
         if k == "mte":
-            _, script = split_script(w)
+            head, script = split_script(w)
+            if len(head) == 3:
+                # `mte a R<k>`: the empties set is first replaced by an equal set that iterates in another order (C01's hash-order
+                # clause for this group: sorted(self.empties) must make the pick independent of it; the model ignores R<k>)
+                g._empties = ReorderedSet(g.empties, int(head[2][1:]))
             self.rng.load(script)
             g.move_to_empty(A[int(w[1])])
             return "ok", None
@@ -258,6 +312,37 @@ class GridImpl:
             r = g[ix, iy]
             v = [self.ids(r)] if isinstance(ix, int) and isinstance(iy, int) else [self.ids(c) for c in r]
             return sp(" ".join(fmt_cell(c) for c in v)), v
+        if k == "coorditer":
+            v = [((int(c[0]), int(c[1])), self.ids(content)) for content, c in g.coord_iter()]
+            return sp(" ".join(f"{c[0]},{c[1]}={fmt_cell(l)}" for c, l in v)), v
+        if k == "lset":
+            g.properties[layer_name(int(w[1]))].set_cell((int(w[2]), int(w[3])), int(w[4]))
+            return "ok", None
+        if k == "sel":
+            import numpy as np
+
+            rl, oe, masks, conds, exts = parse_sel(w)
+            ms = []
+            for m in masks:
+                if m[0] == "N":
+                    ms.append(g.get_neighborhood_mask((m[1], m[2]), m[3], m[4], m[5]))
+                else:
+                    ms.append(np.array([c == "1" for c in m[1]], dtype=bool).reshape(self.w, self.h))
+            kw = {}
+            if ms:
+                kw["masks"] = ms[0] if len(ms) == 1 and masks[0][0] == "B" else ms  # a single mask may be passed bare
+            if conds:
+                kw["conditions"] = {layer_name(l): CMPS[c](kk) for l, c, kk in conds}
+            if exts:
+                kw["extreme_values"] = {layer_name(l): mode for l, mode in exts}
+            r = g.select_cells(only_empty=oe, return_list=rl, **kw)
+            if rl:
+                v = [(int(x), int(y)) for x, y in r]
+                return sp(fmt_coords(v)), v
+            # a cell whose entry is masked (no cell was left for an extreme value) is not selected
+            data, msk = np.ma.getdata(r), np.ma.getmaskarray(r)
+            v = tuple(bool(data[x, y]) and not bool(msk[x, y]) for (x, y) in self.cells_order)
+            return sp("".join("1" if b else "0" for b in v)), v
         if k == "tadj":
             x, y = g.torus_adj((int(w[1]), int(w[2])))
             return f"ok {int(x)},{int(y)}", (int(x), int(y))
@@ -445,6 +530,12 @@ def any_coord(R, w, h):
     return (R.randint(-30, 30), R.randint(-30, 30))
 
 
+def beyond_coord(R, w, h):
+    """coordinates beyond the index range -size..size-1 of a w x h nested list (IndexError in place_agent)"""
+    return R.choice([(w, 0), (0, h), (w + 3, h + 3), (-w - 1, 0), (0, -h - 2), (R.randrange(w), h), (w, R.randrange(h)),
+                     (-w - 1 - R.randrange(3), R.randrange(h)), (R.randrange(w), -h - 1), (2 * w, -1), (-1, h)])
+
+
 def mte_script(R, impl):
     empt = impl.empty_cells()
     n, w, h = len(empt), impl.w, impl.h
@@ -452,8 +543,13 @@ def mte_script(R, impl):
         return [R.randrange(100) for _ in range(R.randint(0, 2))]
     if n > math.floor(impl.grid.cutoff_empties):
         s = []
+        occ = [(x, y) for (x, y) in impl.cells_order if impl.grid._grid[x][y]]
         for _ in range(R.choice([0, 0, 1, 2, 4])):
-            s += [R.randrange(1000), R.randrange(1000)]
+            if occ and R.random() < 0.6:
+                o = R.choice(occ)  # an attempt that hits an occupied cell: the loop draws again
+                s += [o[0] + w * R.randrange(3), o[1] + h * R.randrange(3)]
+            else:
+                s += [R.randrange(1000), R.randrange(1000)]
         e = R.choice(empt)
         s += [e[0] + w * R.randrange(3), e[1] + h * R.randrange(3)]
         if R.random() < 0.08:
@@ -498,6 +594,64 @@ def gen_index_read(R, w, h):
         return f"tadj {x} {y}"
     x, y = any_coord(R, w, h)
     return f"oob {x} {y}"
+
+
+def gen_lset(R, impl):
+    """a write to an int property layer: small values (ties are the interesting case), 15% arbitrary ints as coordinates (numpy
+    aliasing / IndexError), 4% a layer that does not exist"""
+    w, h = impl.w, impl.h
+    l = R.randrange(2) if R.random() < 0.96 else R.randrange(2, 4)
+    x, y = (any_int(R, w), any_int(R, h)) if R.random() < 0.15 else (R.randrange(w), R.randrange(h))
+    v = R.choice([0, 1, 1, 2, 2, 3, 3, 5, -1, 9])
+    return f"lset {l} {x} {y} {v}"
+
+
+def gen_sel(R, impl):
+    """one select_cells call: 0-2 masks (get_neighborhood_mask of a mostly in-grid centre, or an explicit array), only_empty, 0-2
+    conditions and 0-2 extreme values on distinct layers (4% a layer that does not exist, 4% an invalid mode), either return form"""
+    w, h = impl.w, impl.h
+    rl, oe = R.random() < 0.75, R.random() < 0.6
+    masks = []
+    for _ in range(R.choice([0, 0, 0, 1, 1, 2])):
+        if R.random() < (0.15 if impl.hex else 0.6):
+            x, y = (R.randrange(w), R.randrange(h)) if R.random() < 0.95 else any_coord(R, w, h)
+            masks.append(f"N/{x}/{y}/{int(R.random() < 0.5)}/{int(R.random() < 0.5)}/{R.choice([0, 1, 1, 1, 2, 2, 3])}")
+        else:
+            p = R.choice([0.3, 0.7, 0.9])
+            masks.append("B/" + "".join("1" if R.random() < p else "0" for _ in range(w * h)))
+    have = impl.nlayers
+
+    def layers(n):
+        ls = R.sample(range(2), min(n, 2))
+        if n and R.random() < (0.04 if have else 0.5):
+            ls[R.randrange(len(ls))] = R.randrange(2, 4)
+        return ls
+
+    nc = R.choice([0, 0, 1, 1, 2]) if have else R.choice([0, 0, 0, 0, 1])
+    ne = R.choice([0, 0, 1, 1, 1, 2]) if have else R.choice([0, 0, 0, 0, 1])
+    conds = [f"{l}/{R.choice(['ge', 'ge', 'le', 'eq', 'ne'])}/{R.choice([0, 1, 1, 2, 3, 5, 100])}" for l in layers(nc)]
+    exts = [f"{l}/{R.choice(['highest', 'lowest']) if R.random() < 0.96 else 'bogus'}" for l in layers(ne)]
+    return " ".join(["sel", str(int(rl)), str(int(oe)), str(len(masks)), *masks, str(len(conds)), *conds, str(len(exts)), *exts])
+
+
+def exhaustive_select_c08():
+    """select_cells on two small grids with layers (a stacked MultiGrid, a HexSingleGrid): every combination of return form x
+    only_empty x {no mask, a neighbourhood mask, an explicit mask} x 4 conditions x 8 extreme-value dicts (ties, two layers in
+    both orders, an invalid mode, a missing layer), and coord_iter"""
+    out = []
+    for kind, w, h in (("multi", 3, 2), ("hexsingle", 2, 2)):
+        lines = [grid_header(kind, w, h, False, True, 3), "place 0 1 1", "place 1 1 1" if kind == "multi" else "place 1 0 0", "coorditer",
+                 "lset 0 0 0 5", f"lset 0 {w - 1} {h - 1} 5", "lset 0 1 1 9", "lset 1 0 1 -1", "lset 1 1 0 2", "lset 0 -1 0 1", f"lset 1 {w} 0 1", "lset 2 0 0 1"]
+        for rl in (1, 0):
+            for oe in (0, 1):
+                for m in ("0", "1 N/0/0/1/0/1", "1 B/" + "110111"[:w * h], "2 N/1/1/0/1/1 B/" + "011111"[:w * h]):
+                    for c in ("0", "1 0/ge/1", "1 1/le/0", "2 1/ne/2 0/ge/5", "1 2/eq/0"):
+                        for e in ("0", "1 0/highest", "1 0/lowest", "1 1/highest", "2 0/highest 1/lowest", "2 1/lowest 0/highest",
+                                  "1 0/bogus", "1 3/highest"):
+                            lines.append(f"sel {rl} {oe} {m} {c} {e}")
+        lines += ["remove 0", "coorditer", "sel 1 1 0 0 0", "empties"]
+        out.append(core.Scenario(lines, {"exhaustive": True}))
+    return out
 
 
 def exhaustive_index_c08():
@@ -571,10 +725,16 @@ def gen_c08(R, tier, rejecting=False):
                 b.add(f"place {a} {x} {y}")
         b.add("dump")
     n_ops = R.randint(5, 40 if tier == "quick" else 60)
+    frozen = False
+    if layers and not rejecting:
+        for _ in range(R.randint(0, 6)):
+            b.add(gen_lset(R, impl))
     for step in range(n_ops):
         placed = [i for i, a in enumerate(impl.agents) if a.pos is not None]
         unplaced = [i for i, a in enumerate(impl.agents) if a.pos is None]
         k = R.random()
+        if frozen:
+            k = 0.99  # reads only
         mut = True
         if rejecting and k < 0.5:
             # a call that is (likely to be) rejected, chosen among the kinds applicable in this state
@@ -592,11 +752,16 @@ def gen_c08(R, tier, rejecting=False):
                 kinds += ["mte-script", "mto-script"]
             if unplaced and impl.multi:
                 kinds += ["remove-unplaced", "move-unplaced", "mte-unplaced"]
+            if unplaced:
+                kinds += ["place-beyond", "place-beyond"]
             kind_ = R.choice(kinds)
             far = lambda: R.choice([(-1, 0), (w, 0), (0, -1), (0, h), (w + 3, h + 3), (-5, 2), (R.randrange(w), h), (w, R.randrange(h))])  # noqa: E731
             if kind_ == "move-oob":
                 x, y = far()
                 b.add(f"move {R.choice(placed)} {x} {y}")
+            elif kind_ == "place-beyond":
+                x, y = beyond_coord(R, w, h)
+                b.add(f"place {R.choice(unplaced)} {x} {y}")
             elif kind_ in ("move-occupied", "mto-occupied"):
                 a = R.choice(placed)
                 x, y = pos_of[R.choice([i for i in placed if i != a])]
@@ -647,9 +812,19 @@ def gen_c08(R, tier, rejecting=False):
                 b.add(f"mte {R.choice(unplaced)} : " + " ".join(map(str, mte_script(R, impl))))
         elif oq and unplaced and k < 0.10:
             b.add(f"foreign {R.choice(unplaced)} {R.randrange(w)} {R.randrange(h)}")
+        elif oq and unplaced and k < 0.16 and step >= n_ops // 3:
+            # outside the quantifier: coordinates in the aliasing band -size..-1; the last mutating call of the scenario
+            # (the model covers the call itself; `remove_agent` of an agent whose pos is no cell of the grid is not modelled)
+            x, y = R.randrange(-w, w), R.randrange(-h, h)
+            if x >= 0 and y >= 0:
+                x = -1 - R.randrange(w)
+            b.add(f"place {R.choice(unplaced)} {x} {y}")
+            frozen = True
         elif k < 0.22 and (unplaced or (oq and placed)):
             a = R.choice(placed) if (oq and placed and (not unplaced or R.random() < 0.6)) else R.choice(unplaced)
             x, y = R.randrange(w), R.randrange(h)
+            if a in unplaced and R.random() < 0.07:
+                x, y = beyond_coord(R, w, h)  # IndexError (also on a torus: place_agent never wraps)
             b.add(f"place {a} {x} {y}")
         elif k < 0.30 and (placed or unplaced):
             a = R.choice(placed) if placed and R.random() < 0.9 else R.randrange(nag)
@@ -664,13 +839,22 @@ def gen_c08(R, tier, rejecting=False):
             b.add(f"swap {a} {c}")
         elif k < 0.67 and (placed or unplaced) and not (late_reads and step < n_ops // 2):
             a = R.choice(placed) if placed and R.random() < 0.93 else R.randrange(nag)
-            b.add(f"mte {a} : " + " ".join(map(str, mte_script(R, impl))))
+            rot = f" R{R.randrange(1, 12)}" if (not rejecting and R.random() < 0.3) else ""  # reordered empties set
+            b.add(f"mte {a}{rot} : " + " ".join(map(str, mte_script(R, impl))))
         elif k < 0.80 and (placed or unplaced):
             a = R.choice(placed) if placed and R.random() < 0.93 else R.randrange(nag)
             n = R.choice([0, 1, 1, 2, 2, 3, 4, 5])
             ps = [any_coord(R, w, h) for _ in range(n)]
             if n >= 2 and R.random() < 0.3:
                 ps[1] = ps[0]  # duplicates offered
+            if n >= 2 and a in placed and R.random() < 0.3:
+                # offers at the same distance from the agent: the tie list has several cells, the last draw decides
+                px, py = impl.agents[a].pos
+                d = R.randint(1, 2)
+                ring = [(px + d, py), (px - d, py), (px, py + d), (px, py - d)]
+                R.shuffle(ring)
+                for j in range(min(n, R.randint(2, 4))):
+                    ps[j] = ring[j]
             if n >= 2 and torus and R.random() < 0.4:
                 ps[0] = (ps[0][0] + w * R.choice([-2, -1, 1, 2]), ps[0][1] + h * R.choice([-1, 0, 1]))
             sel = R.choice(["random", "closest", "closest", "closest", "bogus"] if R.random() < 0.15 else ["random", "closest", "closest"])
@@ -691,12 +875,18 @@ def gen_c08(R, tier, rejecting=False):
                 b.add(f"isempty {R.randrange(w)} {R.randrange(h)}")
             elif j < 0.45:
                 b.add(gen_index_read(R, w, h))
-            elif j < 0.58:
+            elif j < 0.55:
                 b.add("mask")
-            elif j < 0.7:
+            elif j < 0.63:
                 b.add("agents")
-            elif j < 0.8:
+            elif j < 0.69:
                 b.add("iter")
+            elif j < 0.74:
+                b.add("coorditer")
+            elif j < 0.88:
+                b.add(gen_sel(R, impl))
+            elif j < 0.92 and layers:
+                b.add(gen_lset(R, impl))
             else:
                 x, y = any_coord(R, w, h)
                 b.add(f"get {x} {y}")
@@ -802,7 +992,7 @@ def exhaustive_c08_net():
 
 def exhaustive_c08_grid():
     """bounded-exhaustive grid state machine on a 2x1 grid with two agents: every within-quantifier history of length <= 3 over
-    {place a c, remove a, move a t (in-grid, x beyond the edge, y beyond the edge), swap} — first with `empties` never read, then
+    {place a c (both cells and one beyond the grid), remove a, move a t (in-grid, x beyond the edge, y beyond the edge), swap} — first with `empties` never read, then
     (length <= 2) with `empties` built —, a dump after every call.  Removing both agents returns to the initial observable state
     (`remove_agent` of an unplaced agent is silent on a SingleGrid and a rejected TypeError on a MultiGrid), so the histories are
     chained in one scenario per class and torus flag.  A tiny simulation of occupancy decides which `place` calls are within
@@ -813,7 +1003,7 @@ def exhaustive_c08_grid():
     targets = [(0, 0), (1, 0), (2, 0), (0, -1)]
     ops = [("swap", 0, 1)]
     for a in (0, 1):
-        ops += [("place", a, c) for c in cells] + [("remove", a, None)] + [("move", a, t) for t in targets]
+        ops += [("place", a, c) for c in cells + [(2, 0)]] + [("remove", a, None)] + [("move", a, t) for t in targets]
 
     def simulate(hist, multi, torus):
         """-> lines or None if a place call would leave the quantifier"""
@@ -823,8 +1013,8 @@ def exhaustive_c08_grid():
             if k == "place":
                 if pos[a] is not None:
                     return None
-                if multi or not occ(x):
-                    pos[a] = x
+                if x in cells and (multi or not occ(x)):
+                    pos[a] = x  # (2, 0) is beyond the grid: IndexError, nothing changes
                 body.append(f"place {a} {x[0]} {x[1]}")
             elif k == "remove":
                 pos[a] = None
@@ -844,16 +1034,17 @@ def exhaustive_c08_grid():
     out = []
     for kind in ("single", "multi"):
         for torus in (0, 1):
-            lines = [grid_header(kind, 2, 1, torus, False, 2)]
+            # one scenario per (empties built?, first call of the history): each starts from a fresh grid
             for built, length in ((False, 3), (True, 2)):
-                if built:
-                    lines += ["empties", "dump"]
-                for n in range(1, length + 1):
-                    for hist in itertools.product(ops, repeat=n):
-                        body = simulate(hist, kind == "multi", torus)
-                        if body:
-                            lines += body + (["empties", "mask"] if built and n == length else [])
-            out.append(core.Scenario(lines, {"exhaustive": True}))
+                for first in ops:
+                    lines = [grid_header(kind, 2, 1, torus, False, 2)] + (["empties", "dump"] if built else [])
+                    for n in range(1, length + 1):
+                        for rest in itertools.product(ops, repeat=n - 1):
+                            body = simulate((first, *rest), kind == "multi", torus)
+                            if body:
+                                lines += body + (["empties", "mask"] if built and n == length else [])
+                    if len(lines) > 3:
+                        out.append(core.Scenario(lines, {"exhaustive": True}))
     return out
 
 
@@ -1146,9 +1337,33 @@ def oracle_c08_net(sc, obs, H):
     return bad
 
 
+def torus_dist_sq(H, p, q):
+    """squared distance between the cells two coordinates denote (per axis the least distance over all translates on a torus)"""
+    w, h = H["w"], H["h"]
+    dx, dy = abs(p[0] - q[0]), abs(p[1] - q[1])
+    if H["torus"]:
+        dx, dy = min(dx % w, w - dx % w), min(dy % h, h - dy % h)
+    return dx * dx + dy * dy
+
+
+def closest_ties(H, ps, cur):
+    """the offers at minimal distance from cur (with multiplicity)"""
+    best = min(torus_dist_sq(H, q, cur) for q in ps)
+    return [q for q in ps if torus_dist_sq(H, q, cur) == best]
+
+
+def aliased_place(H, line):
+    """a `place` whose coordinates lie in Python's aliasing band -size..-1 (accepted by place_agent, leaves pos outside the grid)"""
+    t = line.split()
+    if t[0] != "place" or H["type"] != "grid":
+        return False
+    x, y = int(t[2]), int(t[3])
+    return -H["w"] <= x < H["w"] and -H["h"] <= y < H["h"] and (x < 0 or y < 0)
+
+
 def oracle_c08(sc, obs):
     H = _hdr(sc)
-    if sc.meta.get("oq") or any(l.startswith("foreign ") for l in sc.lines):
+    if sc.meta.get("oq") or any(l.startswith("foreign ") or aliased_place(H, l) for l in sc.lines[1:]):
         return []  # outside the quantifier (also after shrinking): model-vs-code tie only
     if H["type"] == "net":
         return oracle_c08_net(sc, obs, H)
@@ -1256,6 +1471,70 @@ def oracle_c08(sc, obs):
                     bad.append(f"index: {where}: a zero slice step gave {res}")
             elif not res.startswith("ok") or [tuple(x) for x in e["val"]] != want:
                 bad.append(f"index: {where}: gave {res}, Python slicing of the contents gives {want}")
+        elif k == "coorditer":
+            want = [(c, Bc[c]) for c in order]
+            if not res.startswith("ok") or [(tuple(c), tuple(l)) for c, l in e["val"]] != want:
+                bad.append(f"coord-iter: {where}: coord_iter() gave {e['val']}, the cells in order hold {want}")
+        elif k == "lset":
+            l, p, v = int(op[1]), (int(op[2]), int(op[3])), int(op[4])
+            lay_b, lay_a = B.get("layers") or [], A.get("layers") or []
+            if l < len(lay_b) and ing(p):
+                i = order.index(p)
+                want = [list(x) for x in lay_b]
+                want[l][i] = v
+                if res != "ok" or [list(x) for x in lay_a] != want:
+                    bad.append(f"layer-set: {where}: gave {res}; the layers are {lay_a}, expected {want}")
+            elif res.startswith("err") and lay_a != lay_b:
+                bad.append(f"reject-unchanged: {where}: raised {res} but a layer changed")
+        elif k == "sel":
+            rl, oe, masks, conds, exts = parse_sel(op)
+            lay = B.get("layers") or []
+            val = lambda l, c: lay[l][order.index(c)]  # noqa: E731
+            err, sel = None, set(order)
+            for m in masks:  # the masks are built first, left to right
+                if m[0] == "N":
+                    if H["hex"]:
+                        err = "Type"  # get_neighborhood_mask is inherited by the hex classes but cannot work there
+                    elif not ing((m[1], m[2])):
+                        err = "OutOfBounds"
+                    else:
+                        ball = orth_ball(w, h, torus, (m[1], m[2]), m[3], m[5])
+                        if not m[4]:
+                            ball.discard((m[1], m[2]))
+                        sel &= ball
+                else:
+                    sel &= {c for c, bit in zip(order, m[1]) if bit == "1"}
+                if err:
+                    break
+            if err is None:
+                if oe:
+                    sel = {c for c in sel if not Bc[c]}
+                for l, cmp_, kk in conds:
+                    if l >= len(lay):
+                        err = "Key"
+                        break
+                    sel = {c for c in sel if {"ge": val(l, c) >= kk, "le": val(l, c) <= kk, "eq": val(l, c) == kk, "ne": val(l, c) != kk}[cmp_]}
+            if err is None:
+                for l, mode in exts:
+                    if l >= len(lay):
+                        err = "Key"
+                        break
+                    if mode not in ("highest", "lowest"):
+                        err = "Value"
+                        break
+                    if sel:
+                        t = (max if mode == "highest" else min)(val(l, c) for c in sel)
+                        sel = {c for c in sel if val(l, c) == t}
+            if err:
+                if res != "err " + err:
+                    bad.append(f"select-reject: {where}: gave {res}, expected err {err}")
+            else:
+                want = [c for c in order if c in sel]
+                got = [tuple(c) for c in e["val"]] if rl and res.startswith("ok") else (
+                    [c for c, bit in zip(order, e["val"]) if bit] if res.startswith("ok") else None)
+                if got != want:
+                    bad.append(f"select: {where}: select_cells gave {res if got is None else got}, the cells that qualify "
+                               f"(masks, {'empty, ' if oe else ''}conditions, extreme values) are {want}")
         elif k == "tadj":
             p = (int(op[1]), int(op[2]))
             if ing(p) or torus:
@@ -1291,7 +1570,11 @@ def oracle_c08(sc, obs):
             if Ac != want:
                 diff = sorted(c for c in want if want[c] != Ac.get(c))
                 bad.append(f"lists: {where}: cell list(s) {diff} are {[Ac.get(c) for c in diff]}, expected {[want[c] for c in diff]}")
-        if k == "place" and pa is None:
+        if k == "place" and pa is None and not ing((int(op[2]), int(op[3]))):
+            # beyond the grid's index range (the aliasing band never gets here): IndexError, on a torus too; nothing changes
+            if res != "err Index":
+                bad.append(f"place-outside: {where}: placing outside the grid gave {res}, pos {A['pos'][a]}")
+        elif k == "place" and pa is None:
             p = (int(op[2]), int(op[3]))
             occupied = bool(Bc[p])
             if not multi and occupied:
@@ -1539,8 +1822,70 @@ def _hex_tables_probe():
     return ev, od
 
 
+GRID_PARAMS = ["pos", "moore", "include_center", "radius"]
+HEX_PARAMS = ["pos", "include_center", "radius"]
+
+
+def _cache_keys_ast(src):
+    """{"_Grid": (params, key names), "_HexGrid": …}: the parameters (without self) of the two get_neighborhood functions and the
+    names in the tuple that indexes self._neighborhood_cache when the result is stored (a name is resolved through its assignment)"""
+    out = {}
+    for cls in ast.parse(src).body:
+        if isinstance(cls, ast.ClassDef) and cls.name in ("_Grid", "_HexGrid"):
+            for fn in cls.body:
+                if isinstance(fn, ast.FunctionDef) and fn.name == "get_neighborhood":
+                    params = [a.arg for a in fn.args.args[1:]]
+                    assigns, key = {}, None
+                    for node in ast.walk(fn):
+                        if isinstance(node, ast.Assign) and len(node.targets) == 1:
+                            t = node.targets[0]
+                            if isinstance(t, ast.Name):
+                                assigns.setdefault(t.id, node.value)
+                            elif isinstance(t, ast.Subscript) and ast.unparse(t.value) == "self._neighborhood_cache":
+                                key = t.slice
+                    if isinstance(key, ast.Name):
+                        key = assigns.get(key.id)
+                    if isinstance(key, ast.Tuple) and all(isinstance(e, ast.Name) for e in key.elts):
+                        out[cls.name] = (params, [e.id for e in key.elts])
+    return out
+
+
+def _cache_keys_probe():
+    """which arguments the cache distinguishes, by behaviour: two calls that differ in one argument only must leave two entries"""
+    _, space = _mesa()
+    res = {}
+    for name, cls, base, other in (
+            ("_Grid", space.SingleGrid, {"pos": (3, 3), "moore": True, "include_center": False, "radius": 1},
+             {"pos": (2, 3), "moore": False, "include_center": True, "radius": 2}),
+            ("_HexGrid", space.HexSingleGrid, {"pos": (3, 3), "include_center": False, "radius": 1},
+             {"pos": (2, 3), "include_center": True, "radius": 2})):
+        seen = []
+        for k in base:
+            g = cls(8, 8, False)
+            g.get_neighborhood(**base)
+            n = len(g._neighborhood_cache)
+            g.get_neighborhood(**{**base, k: other[k]})
+            if len(g._neighborhood_cache) == n + 1:
+                seen.append(k)
+        res[name] = (list(base), seen)
+    return res
+
+
 def gen_tables():
     _, space = _mesa()
+    src = open(space.__file__).read()
+    probe = _cache_keys_probe()
+    try:
+        keys = _cache_keys_ast(src)
+    except Exception:  # noqa: BLE001
+        keys = {}
+    key_how = {}
+    for c in ("_Grid", "_HexGrid"):
+        if c in keys and set(keys[c][1]) == set(probe[c][1]):
+            key_how[c] = "ast (parameter list and the tuple that indexes self._neighborhood_cache), cross-checked by probing the cache"
+        else:
+            keys[c] = probe[c]
+            key_how[c] = "probe (two calls differing in one argument leave two cache entries)"
     pev, pod = _hex_tables_probe()
     how = "probe (radius-1 neighbourhoods of an even and an odd interior column of a HexSingleGrid; sorted)"
     ev, od = pev, pod
@@ -1552,6 +1897,7 @@ def gen_tables():
         ev, od = t
         how = "ast (the two `adjacent` list literals of `_HexGrid.get_neighborhood`, evaluated at (0, 0)), cross-checked by probing a HexSingleGrid"
     f = lambda l: "[" + ", ".join(f"({a}, {b})" for a, b in l) + "]"  # noqa: E731
+    fs = lambda l: "[" + ", ".join('"' + x + '"' for x in l) + "]"  # noqa: E731
     content = f"""/-! GENERATED by harness/legacy_common.py:gen_tables() from mesa/space.py — do not edit.
 source: {how} -/
 namespace Mesa.Legacy.Gen
@@ -1561,6 +1907,18 @@ def hexEven : List (Int × Int) := {f(ev)}
 
 /-- offsets of the six neighbours of a hexagon in an odd column, in source order -/
 def hexOdd : List (Int × Int) := {f(od)}
+
+/-- parameters of `_Grid.get_neighborhood` (without `self`) — source: {key_how["_Grid"]} -/
+def nbhdParams : List String := {fs(keys["_Grid"][0])}
+
+/-- the arguments that make up the key of `_neighborhood_cache` in `_Grid.get_neighborhood` -/
+def nbhdCacheKey : List String := {fs(keys["_Grid"][1])}
+
+/-- parameters of `_HexGrid.get_neighborhood` — source: {key_how["_HexGrid"]} -/
+def hexParams : List String := {fs(keys["_HexGrid"][0])}
+
+/-- the arguments that make up the cache key in `_HexGrid.get_neighborhood` -/
+def hexCacheKey : List String := {fs(keys["_HexGrid"][1])}
 
 end Mesa.Legacy.Gen
 """
